@@ -69,6 +69,10 @@ CHECKS = {
    text="Model-based testing of luminance views: eight source kinds x generated sizes / pixel contents x sequences of up to six crop / invert / rotate operations (valid and invalid) against a naive 2-D array model, every row and the full matrix compared after each step; bilevel images (incl. rendered symbols of all writers, sizes around the 40-pixel switch) through both binarisers and the BinaryBitmap API against the exact black-pixel model.",
    note="Trusted: the naive model in checks/c17. Colour-to-luminance conversion is only checked at opaque black / white / gray; single-colour rows may be rejected or binarised exactly.",
    tech="model-based property testing (rapid) against a naive array model"),
+ "C11": dict(cat="exploration", ref="DESIGN.md §4 C11",
+   text="Symbols are produced by an independent Aztec encoder (internal/azref) from rapid-generated token walks over the five code tables, shifts, latches and binary shifts; every one of the 36 sizes is forced each run; decoding is checked at three observation points (high-level bits, matrix with detector result, rendered image in four rotations at scales 2..5) with damage up to the correction capacity.",
+   note="Trusted: internal/azref (tables, stuffing, RS over own GF arithmetic, mode message, layout), validated by the unchanged tree decoding all sizes. One known finding (centre estimate of sparse symbols) is listed with a matcher that recomputes the library's own first-stage centre estimate.",
+   tech="property-based testing with an independent reference encoder as symbol source"),
 }
 
 NOT_YET = {}
